@@ -128,7 +128,11 @@ def run_case(case, cid):
                         model[k] += v
                     model[(extra,)] -= 1
                     if cid % 5 == 1:
-                        model = [lambda m: m.copy(), lambda m: m + 0, lambda m: 1 * m, lambda m: type(m)(m)][(cid // 5) % 4](model)
+                        choice_ = (cid // 5) % 5
+                        if choice_ == 4:
+                            model.refresh()          # refresh() after the cancellation: the bookkeeping is exact again
+                        else:
+                            model = [lambda m: m.copy(), lambda m: m + 0, lambda m: 1 * m, lambda m: type(m)(m)][choice_](model)
                 if case["kind"] != "dict" and case["op"] in ("enum", "convsol"):
                     # conversions made BEFORE the enumeration is changed below must not be remembered
                     for meth in ("to_enumerated", case.get("method", "to_enumerated")):
@@ -155,7 +159,21 @@ def run_case(case, cid):
                     pr.shuffle(ints)
                     pairs = list(zip(vs, ints))
                     pr.shuffle(pairs)
-                    model.set_mapping(dict(pairs))
+                    # every documented way of handing a mapping over (dict(*args, **kwargs) semantics): a dict, a list of
+                    # pairs, a one-shot iterator of pairs; or the inverse mapping to set_reverse_mapping
+                    form_ = pr.choice(["dict", "dict", "pairs", "iter", "gen", "reverse", "reverse_iter"])
+                    if form_ == "dict":
+                        model.set_mapping(dict(pairs))
+                    elif form_ == "pairs":
+                        model.set_mapping(list(pairs))
+                    elif form_ == "iter":
+                        model.set_mapping(zip([a_ for a_, _ in pairs], [b_ for _, b_ in pairs]))
+                    elif form_ == "gen":
+                        model.set_mapping((a_, b_) for a_, b_ in pairs)
+                    elif form_ == "reverse":
+                        model.set_reverse_mapping({b_: a_ for a_, b_ in pairs})
+                    else:
+                        model.set_reverse_mapping(iter([(b_, a_) for a_, b_ in pairs]))
                     for k, v in later:
                         model[k] += v
                 snap = copy.deepcopy(model)
